@@ -130,6 +130,8 @@ impl Monitor for Mon {
             v.push(Event::Deliver { to: Target::Unknown, reply: menu[0] });
             v.push(Event::RawBytes(vec![0u8; 7]));
         }
+        // non-responses carrying an outstanding id never free its slot
+        v.extend(explore::id_tie_events(w));
         v
     }
 }
@@ -221,7 +223,7 @@ pub fn run(ctx: &RunCtx) -> i32 {
             (Transport::Unreliable { rto_ms: 100, gran_ms: 1, rm: 2, rc: 2 }, Mech::ShortTerm(None)),
             (Transport::Unreliable { rto_ms: 100, gran_ms: 1, rm: 2, rc: 2 }, Mech::LongTerm),
         ] {
-            cfgs.push(Cfg { transport: t, mech: m, fingerprint: false, max_tx: limit });
+            cfgs.push(Cfg { transport: t, mech: m, fingerprint: false, max_tx: limit, cred: 0, method: 1 });
         }
     }
     let per: Vec<_> = cfgs
@@ -239,10 +241,10 @@ pub fn run(ctx: &RunCtx) -> i32 {
         .collect();
     // default limit 10: directed fill / drain / refill family
     let dcfgs = vec![
-        Cfg { transport: Transport::Unreliable { rto_ms: 500, gran_ms: 1, rm: 16, rc: 7 }, mech: Mech::None, fingerprint: false, max_tx: 10 },
-        Cfg { transport: Transport::Reliable { timeout_ms: 39500 }, mech: Mech::ShortTerm(Some(false)), fingerprint: false, max_tx: 10 },
-        Cfg { transport: Transport::Unreliable { rto_ms: 500, gran_ms: 1, rm: 16, rc: 7 }, mech: Mech::ShortTerm(None), fingerprint: true, max_tx: 10 },
-        Cfg { transport: Transport::Unreliable { rto_ms: 500, gran_ms: 1, rm: 16, rc: 7 }, mech: Mech::LongTerm, fingerprint: false, max_tx: 10 },
+        Cfg { transport: Transport::Unreliable { rto_ms: 500, gran_ms: 1, rm: 16, rc: 7 }, mech: Mech::None, fingerprint: false, max_tx: 10, cred: 0, method: 1 },
+        Cfg { transport: Transport::Reliable { timeout_ms: 39500 }, mech: Mech::ShortTerm(Some(false)), fingerprint: false, max_tx: 10, cred: 0, method: 1 },
+        Cfg { transport: Transport::Unreliable { rto_ms: 500, gran_ms: 1, rm: 16, rc: 7 }, mech: Mech::ShortTerm(None), fingerprint: true, max_tx: 10, cred: 0, method: 1 },
+        Cfg { transport: Transport::Unreliable { rto_ms: 500, gran_ms: 1, rm: 16, rc: 7 }, mech: Mech::LongTerm, fingerprint: false, max_tx: 10, cred: 0, method: 1 },
     ];
     dcfgs.par_iter().for_each(|cfg| {
         let mut r = Report::new();
@@ -253,7 +255,7 @@ pub fn run(ctx: &RunCtx) -> i32 {
     });
     // a limit above 255 (a narrower counter would wrap): fill 300, probe, let all expire in one timer call, refill
     {
-        let cfg = Cfg { transport: Transport::Unreliable { rto_ms: 100, gran_ms: 1, rm: 2, rc: 2 }, mech: Mech::None, fingerprint: false, max_tx: 300 };
+        let cfg = Cfg { transport: Transport::Unreliable { rto_ms: 100, gran_ms: 1, rm: 2, rc: 2 }, mech: Mech::None, fingerprint: false, max_tx: 300, cred: 0, method: 1 };
         let mut r = Report::new();
         let proto = Mon::new(1000);
         let mut run = explore::start(&cfg, &apps, &proto);
@@ -291,7 +293,7 @@ pub fn run(ctx: &RunCtx) -> i32 {
         rep,
         Finish {
             level: "model_checking",
-            rule: "breadth-first exploration of the real client for limits 0..=4 (depth 2*limit+4, capped at 9 quick / 11 thorough) x 4 transport/mechanism configurations over {Send (also probing a full table), Send with a 16-byte buffer (must fail without taking a slot), Indicate, Timer, AdvanceTo(next point, +1 ms, beyond), Deliver(each of the first two awaiting requests x reply menu incl. auth-failing, 401, 438), Deliver(unknown id), undecodable bytes}; default limit 10: directed fill-to-limit(+1 probe) / drain / refill executions for every pair of final-outcome kinds and every split of the ten requests between them, two rounds; limit 300: fill, probe, expire all in one timer call, refill. Monitor: send_request refused iff independently counted unfinished requests == limit; a refusal yields no event and an identical snapshot".into(),
+            rule: "breadth-first exploration of the real client for limits 0..=4 (depth 2*limit+4, capped at 9 quick / 11 thorough) x 4 transport/mechanism configurations over {Send (also probing a full table), Send with a 16-byte buffer (must fail without taking a slot), Indicate, Timer, AdvanceTo(next point, +1 ms, beyond), Deliver(an indication / a request carrying the id of an awaiting request), Deliver(each of the first two awaiting requests x reply menu incl. auth-failing, 401, 438), Deliver(unknown id), undecodable bytes}; default limit 10: directed fill-to-limit(+1 probe) / drain / refill executions for every pair of final-outcome kinds and every split of the ten requests between them, two rounds; limit 300: fill, probe, expire all in one timer call, refill. Monitor: send_request refused iff independently counted unfinished requests == limit; a refusal yields no event and an identical snapshot".into(),
             assumptions: vec!["a final outcome is what the application observes (response delivered, TransactionFailed, Retry)".into()],
             required_symbols: vec!["Send", "Indicate", "Timer", "Deliver", "refused-at-limit", "accepted-below-limit", "fill-drain-refill", "bfs-configs", "failed-send-clean", "limit-300"],
             min_outcomes: 6,
